@@ -430,6 +430,7 @@ const (
 
 type treeOpts struct {
 	auth, overlap bool
+	names         map[int]string // prescribed level names by index
 }
 
 // buildLevels decorates a parent vector with names, prompts, patterns, transition commands.
@@ -440,6 +441,25 @@ func buildLevels(r *rand.Rand, parent []int, o treeOpts, needConfiguration bool)
 	names := make([]string, n)
 	for i := range names {
 		names[i] = namePool[perm[i]]
+	}
+	if len(o.names) > 0 {
+		// some levels have prescribed names; the others draw from the rest of the pool
+		taken := map[string]bool{}
+		for _, nm := range o.names {
+			taken[nm] = true
+		}
+		k := 0
+		for i := range names {
+			if nm, ok := o.names[i]; ok {
+				names[i] = nm
+				continue
+			}
+			for taken[namePool[perm[k]]] {
+				k++
+			}
+			names[i] = namePool[perm[k]]
+			k++
+		}
 	}
 	if needConfiguration {
 		has := false
@@ -671,7 +691,11 @@ func (s *Sess) unknownOp(r *rand.Rand) Op {
 
 // newSess draws everything but the operations; resamples until the preconditions hold.
 func newSess(r *rand.Rand, kind, variant string, parent []int, needConfiguration bool) Sess {
-	o := treeOpts{auth: strings.Contains(variant, "auth"), overlap: strings.Contains(variant, "overlap")}
+	return newSessNamed(r, kind, variant, parent, needConfiguration, nil)
+}
+
+func newSessNamed(r *rand.Rand, kind, variant string, parent []int, needConfiguration bool, names map[int]string) Sess {
+	o := treeOpts{auth: strings.Contains(variant, "auth"), overlap: strings.Contains(variant, "overlap"), names: names}
 	rejected := 0
 	for {
 		s := Sess{Kind: kind, Variant: variant}
@@ -757,6 +781,9 @@ func genSeqCase(r *rand.Rand) Sess {
 
 // targetOf: the level an operation goes to (-1: unknown target, the device does not move).
 func (s *Sess) targetOf(op Op) int {
+	if op.Kind == "command" || op.Kind == "commands" {
+		return s.Default // a level option on a command call has no meaning
+	}
 	if op.Unknown != "" {
 		return -1
 	}
@@ -1136,6 +1163,90 @@ func genFlavourCase(r *rand.Rand) Sess {
 	}
 }
 
+// genWindowCase ("change window"): a tree with the sibling configuration flavours configuration,
+// configuration-exclusive and/or configuration-private (own prompts, or one shared prompt) and a
+// sequence in which one option list {WithPrivilegeLevel(L)} is shared between the config and the
+// command calls: command calls carry the level option (which has no meaning for them: they run at
+// the default desired level), on a fresh session and right after SendConfig(s)/AcquirePriv/
+// SendInteractive; config calls without a level follow config calls at another flavour back to back.
+func genWindowCase(r *rand.Rand) Sess {
+	for {
+		n0 := 1 + r.Intn(4)
+		flav := []string{"configuration", "configuration-exclusive", "configuration-private"}
+		if r.Intn(2) == 0 {
+			flav = []string{"configuration", flav[1+r.Intn(2)]}
+		}
+		k := len(flav)
+		parent := randomTree(r, n0, []string{"random", "chain", "star"}[r.Intn(3)])
+		p := r.Intn(n0)
+		names := map[int]string{}
+		for i := 0; i < k; i++ {
+			parent = append(parent, p)
+			names[n0+i] = flav[i]
+		}
+		variant := []string{"plain", "auth", "plain"}[r.Intn(3)]
+		s := newSessNamed(r, "window", variant, parent, false, names)
+		n := n0 + k
+		if r.Intn(2) == 0 {
+			// the flavours share one prompt (leaves, never the start level: see the flavour family)
+			for i := n0; i < n; i++ {
+				s.Levels[i].Flavour = "f"
+				s.Levels[i].Prompt, s.Levels[i].Pattern = s.Levels[n0].Prompt, s.Levels[n0].Pattern
+			}
+			if checkPreconditions(&s) != nil {
+				continue
+			}
+		}
+		s.Start = r.Intn(n0)
+		s.Default = r.Intn(n0)
+		// the level named by the shared option list
+		shared := n0 + r.Intn(k)
+		if r.Intn(4) == 0 {
+			shared = r.Intn(n)
+		}
+		cmd := func(opt bool) Op {
+			op := Op{Kind: "command", Level: -1, Lines: s.pickLines(r, 1)}
+			if r.Intn(2) == 0 {
+				op = Op{Kind: "commands", Level: -1, Lines: s.pickLines(r, 1+r.Intn(3))}
+			}
+			if opt {
+				op.Level = shared
+				if r.Intn(8) == 0 {
+					op.Level, op.Unknown = -1, s.unknownName(r, false)
+				}
+			}
+			return op
+		}
+		cfg := func(level int) Op {
+			return Op{Kind: []string{"configs", "config"}[r.Intn(2)], Level: level, Lines: s.pickLines(r, 1+r.Intn(3))}
+		}
+		if r.Intn(5) < 2 {
+			s.Ops = append(s.Ops, cmd(true)) // first call of a fresh session
+		}
+		for c := 6 + r.Intn(7); c > 0; c-- {
+			switch x := r.Intn(20); {
+			case x < 5:
+				s.Ops = append(s.Ops, cmd(true))
+			case x < 6:
+				s.Ops = append(s.Ops, cmd(false))
+			case x < 10:
+				s.Ops = append(s.Ops, cfg(shared))
+			case x < 14:
+				s.Ops = append(s.Ops, cfg(-1)) // no level: must go to "configuration"
+			case x < 16:
+				s.Ops = append(s.Ops, Op{Kind: "acquire", Level: n0 + r.Intn(k)})
+			case x < 18:
+				s.Ops = append(s.Ops, Op{Kind: "interactive", Level: n0 + r.Intn(k), Inter: []string{"confirm", "hidden"}[r.Intn(2)]})
+			case x < 19:
+				s.Ops = append(s.Ops, cfg(n0+r.Intn(k)))
+			default:
+				s.Ops = append(s.Ops, s.opTowards(r, r.Intn(n)))
+			}
+		}
+		return s
+	}
+}
+
 func gen(tier string, seed int64) []mon.Case {
 	var cs []mon.Case
 	maxN := 4
@@ -1217,8 +1328,15 @@ func gen(tier string, seed int64) []mon.Case {
 	for i := 0; i < nRep; i++ {
 		cs = append(cs, mon.MkCase(fmt.Sprintf("c04/reparent-%04d", i), genReparentCase(rng())))
 	}
+	nWin := 40
+	if tier == "thorough" {
+		nWin = 400
+	}
 	for i := 0; i < nFlav; i++ {
 		cs = append(cs, mon.MkCase(fmt.Sprintf("c04/flavours-%04d", i), genFlavourCase(rng())))
+	}
+	for i := 0; i < nWin; i++ {
+		cs = append(cs, mon.MkCase(fmt.Sprintf("c04/window-%04d", i), genWindowCase(rng())))
 	}
 	return cs
 }
